@@ -67,4 +67,42 @@ def event_trace(seed, tier):
         else:
             os.environ['HOME'] = old_home
         shutil.rmtree(home, ignore_errors=True)
-    return n, wit, {'models': n, 'traced_events_compared': total}
+    # records of BATCHES carry the batch's worth at the moment of writing, also when the parts inside it
+    # changed their value since the batch was formed (finish callbacks that work on the contained parts)
+    from simprocesd.model.factory_floor import Part, Batch, PartGenerator
+
+    def worth(p):
+        return sum(worth(x) for x in p.parts) if isinstance(p, Batch) else p.value
+    batch_records = 0
+    for t in range(max(2, n // 3)):
+        k = rng.choice([2, 3])
+
+        class Gen(PartGenerator):
+            def generate_part_helper(self, part_name, part_counter):
+                return Batch(part_name, [Part(f'{part_name}.{i}', 1) for i in range(k)])
+        s = System()
+        src = Source('src', Gen('B'), cycle_time=2)
+        m1 = PartProcessor('m1', [src], cycle_time=1)
+        m1.add_finish_processing_callback(lambda d, b: [x.add_value('work', rng.choice([1, 2])) for x in b.parts])
+        m2 = PartProcessor('m2', [m1], cycle_time=1)
+        Sink('k', [m2])
+        live = {}
+        env = s.env
+        orig = env.add_datapoint
+        bad = []
+
+        def add_datapoint(list_label, sub_label, datapoint, live=live, bad=bad):
+            if list_label in ('received_part', 'produced_part') and len(datapoint) >= 4:
+                p = live.get(datapoint[1])
+                if p is not None and isinstance(p, Batch) and datapoint[3] != worth(p):
+                    bad.append((list_label, sub_label, tuple(datapoint), worth(p)))
+            return orig(list_label, sub_label, datapoint)
+        env.add_datapoint = add_datapoint
+        for d in (m1, m2):
+            d.add_receive_part_callback(lambda dev, p, live=live: live.__setitem__(p.id, p))
+        s.simulate(12, print_summary=False)
+        batch_records += sum(len(v) for v in env.simulation_data.get('produced_part', {}).values())
+        if bad:
+            wit.append({'kind': 'batch-record-value', 'record': repr(bad[0][:3]), 'worth_of_the_batch_at_that_moment': bad[0][3]})
+            break
+    return n, wit, {'models': n, 'traced_events_compared': total, 'batch_records_checked': batch_records}
